@@ -73,36 +73,51 @@ def corpus():
     return out
 
 
-def validate(props, kinds=None, names=None, verbose=True):
-    """run the given property checks against the corpus; -> (rows, ok)"""
+_GIT = __import__('threading').Lock()      # `git worktree add/remove` on one repository: one at a time
+
+
+def _one(job):
+    kind, name, patch, expect, todo, verbose = job
     rows = []
-    ok = True
+    with _GIT:
+        d, w = scratch(patch)
+    try:
+        for pid in todo:
+            rc, out = run_check(w, pid)
+            fired = rc == 1 and ('VIOLATION property=%s' % pid) in out
+            if expect is None:
+                good = rc == 0 and 'VIOLATION' not in out
+                verdict = 'silent' if good else 'FALSE-ALARM'
+            else:
+                good = fired
+                verdict = 'fires' if good else 'MISSED'
+            rows.append({'kind': kind, 'patch': name, 'property': pid, 'verdict': verdict})
+            if not good and verbose:
+                print('!! %s %s %s\n%s' % (kind, name, pid, out[-1200:]))
+    finally:
+        with _GIT:
+            cleanup(d)
+    return rows
+
+
+def validate(props, kinds=None, names=None, verbose=True, jobs=None):
+    """run the given property checks against the corpus (in parallel); -> (rows, ok)"""
+    import concurrent.futures
+    work = []
     for kind, name, patch, expect in corpus():
         if kinds and kind not in kinds:
             continue
         if names and not any(x in name for x in names):
             continue
         todo = [p for p in props if (expect is None or p in expect)]
-        if not todo:
-            continue
-        d, w = scratch(patch)
-        try:
-            for pid in todo:
-                rc, out = run_check(w, pid)
-                fired = rc == 1 and ('VIOLATION property=%s' % pid) in out
-                if expect is None:
-                    good = rc == 0 and 'VIOLATION' not in out
-                    verdict = 'silent' if good else 'FALSE-ALARM'
-                else:
-                    good = fired
-                    verdict = 'fires' if good else 'MISSED'
-                rows.append({'kind': kind, 'patch': name, 'property': pid, 'verdict': verdict})
-                if not good:
-                    ok = False
-                    if verbose:
-                        print('!! %s %s %s\n%s' % (kind, name, pid, out[-1200:]))
-        finally:
-            cleanup(d)
+        if todo:
+            work.append((kind, name, patch, expect, todo, verbose))
+    jobs = jobs or int(os.environ.get('VERIF_SELFTEST_JOBS', '6'))
+    rows = []
+    with concurrent.futures.ThreadPoolExecutor(max_workers=jobs) as ex:
+        for r in ex.map(_one, work):
+            rows.extend(r)
+    ok = all(r['verdict'] in ('fires', 'silent') for r in rows)
     return rows, ok
 
 
